@@ -57,7 +57,9 @@ def run_schedule(V, fns, watched, max_preemptions, max_points=400):
     for w in workers:
         w.thread.start()
     trace = []
-    current = 0
+    # which thread starts is a free choice of the schedule (not a preemption)
+    current = V.pick('start', list(range(len(workers)))) if len(workers) > 1 else 0
+    trace.append(('start', current))
     preempt = 0
     point = 0
     blocked = set()
